@@ -4,7 +4,7 @@ import struct
 from core import term as T
 
 ID = "C10"
-GEN = []
+GEN = ["mutpins"]
 RULE = ("targeted cases: SDMF files with k = N (every share is needed), one field of one share altered (verification key, each signed-prefix field, "
         "share hash chain, block data, encrypted private key); the symbolic model predicts accept/reject.  oracle cases: SDMF and MDMF files with "
         "1-3 published versions, random byte flips / truncation / another file's share / an older version's share on random subsets of shares; "
